@@ -1628,6 +1628,7 @@ Definition after_handler (t : token) (r : mres) : mres :=
           | [] => MCrash
           | cur :: _ =>
               if is_test cur || d_accept_children (f_def cur) then MFalse st1
+              else if pending_param cur then MErr EMissingParam
               else
                 match check_completion (with_cstate CNone st1) false with
                 | MTrue st2 =>
@@ -1671,6 +1672,7 @@ Proof.
     destruct (p_stack st1) as [|cur rest] eqn:Es; [exfalso; apply L2; [rewrite Hc1; exact Hcs|reflexivity]|].
     destruct (is_test cur || d_accept_children (f_def cur)) eqn:Etc; [exact I|].
     apply orb_false_iff in Etc. destruct Etc as [Hnt Hch].
+    destruct (pending_param cur); [exact I|].
     set (st2 := with_cstate CNone st1).
     assert (Es2 : p_stack st2 = cur :: rest) by (unfold st2; pcbn; exact Es).
     rewrite (cc_semicolon st2 cur rest Es2 Hnt Hch).
